@@ -1246,12 +1246,18 @@ func c19r6(c *Ctx, r *Report) {
 	}
 	n := 0
 	for _, fn := range withClosures(rf) {
-		if fn == rf || fn.Signature.Params().Len() != 3 {
+		if fn == rf {
 			continue
 		}
-		// the callback: func(path string, de os.DirEntry, err error) error
-		errParam := fn.Params[len(fn.Params)-1]
-		if errParam.Type().String() != "error" {
+		// the callback: func(path string, de os.DirEntry, err error[, ...]) error — the entry's error is the
+		// parameter of type error, wherever it stands (the callback may be wrapped and take further arguments)
+		var errParam *ssa.Parameter
+		for _, p := range fn.Params {
+			if p.Type().String() == "error" {
+				errParam = p
+			}
+		}
+		if errParam == nil {
 			continue
 		}
 		pc := pathConds(fn)
